@@ -10,7 +10,7 @@ RULE = ("(1) VTIMEZONE definitions (G7): 1-4 observances, whole-minute offsets -
         "Timezone.from_ical(text).to_tz(tzp, lookup_tzid=False) under both providers; instants: every onset -1 s / 0 / +1 s / +20 d (a sample of onsets per "
         "definition in quick) and two instants in 2037; p.astimezone(tz) must give R5's TZOFFSETTO, TZNAME when given, dst()==0 under STANDARD, and the two "
         "providers must agree. (2) histories of 1-5 parsed calendars in one process (zone cache cleared at the start of each history): each calendar "
-        "references a custom TZID from an event and defines it by a VTIMEZONE placed before or after the event; later calendars may define the same "
+        "references a custom TZID (plain, or the way other producers write them: with spaces, parentheses, commas, semicolons) from an event and defines it by a VTIMEZONE placed before or after the event; later calendars may define the same "
         "TZID differently; the event's utcoffset must be the one its own calendar defines; non-trivial = definition with >= 2 observances / history "
         "with >= 2 calendars; distinct by case hash")
 ASSUMPTIONS = ["instants before the first onset and instants where two observances start together are excluded (the RFC leaves them open) (S5)",
@@ -143,8 +143,15 @@ def fmt_dt(t):
     return f"{t[0]:04}{t[1]:02}{t[2]:02}T{t[3]:02}{t[4]:02}{t[5]:02}"
 
 
+TZID_STYLES = ("Verif/Zone-%d", "Verif/Zone-%d", "(UTC+01:00) Amsterdam, Berlin, Bern %d", "Customized Time Zone; v%d", "Verif Zone %d, with comma")
+
+
+def text_escape(s):
+    return s.replace("\\", "\\\\").replace(";", "\\;").replace(",", "\\,")
+
+
 def emit_vtimezone(tzid, defn):
-    lines = ["BEGIN:VTIMEZONE", f"TZID:{tzid}"]
+    lines = ["BEGIN:VTIMEZONE", f"TZID:{text_escape(tzid)}"]
     for kind, ds, frm, to, name, rdates, rule in defn:
         lines += [f"BEGIN:{kind}", f"DTSTART:{fmt_dt(ds)}", f"TZOFFSETFROM:{fmt_off(frm)}", f"TZOFFSETTO:{fmt_off(to)}"]
         if name:
@@ -171,7 +178,8 @@ def run(ctx):
         n += 1
         if n % 4 == 0:
             k = rng.randrange(1, 6)
-            tzids = [f"Verif/H{rng.randrange(3)}" for _ in range(k)]
+            style = rng.choice(("Verif/H%d", "Verif/H%d", "(UTC+01:00) Amsterdam, Berlin, Bern %d", "Customized Time Zone; v%d"))
+            tzids = [style % rng.randrange(3) for _ in range(k)]
             cals = tuple((tzids[j], rng.choice(range(-12 * 60, 14 * 60 + 1, 30)) * 60, rng.choice(("before", "before", "after")),
                           (rng.randrange(1990, 2030), rng.randrange(1, 13), rng.randrange(1, 29), rng.randrange(24), 0, 0)) for j in range(k))
             ctx.check(("history", "zoneinfo" if (n // 4) % 2 else "pytz", cals), "histories")
@@ -207,7 +215,7 @@ def check_definition(ctx, case):
     r5 = to_r5(defn)
     tl = R5.timeline(r5)
     amb = R5.ambiguous_instants(tl)
-    text = "\r\n".join(emit_vtimezone("Verif/Zone-%d" % (seed % 100000), defn)) + "\r\n"
+    text = "\r\n".join(emit_vtimezone(TZID_STYLES[seed % len(TZID_STYLES)] % (seed % 100000), defn)) + "\r\n"   # ids the way other producers write them, too
     zones = {}
     for prov in ("zoneinfo", "pytz"):
         try:
@@ -285,7 +293,8 @@ def check_history(ctx, case):
     for idx, (tzid, off, pos, wall) in enumerate(cals):
         defn = (("STANDARD", (1970, 1, 1, 0, 0, 0), off, off, "VST", (), None),)
         vt = emit_vtimezone(tzid, defn)
-        ev = ["BEGIN:VEVENT", f"UID:h{idx}", f"DTSTART;TZID={tzid}:{fmt_dt(wall)}", "END:VEVENT"]
+        ptz = f'"{tzid}"' if any(c in tzid for c in ",;:") else tzid
+        ev = ["BEGIN:VEVENT", f"UID:h{idx}", f"DTSTART;TZID={ptz}:{fmt_dt(wall)}", "END:VEVENT"]
         body = vt + ev if pos == "before" else ev + vt
         text = "\r\n".join(["BEGIN:VCALENDAR", "VERSION:2.0", "PRODID:-//verif//c12//"] + body + ["END:VCALENDAR"]) + "\r\n"
         try:
